@@ -25,8 +25,8 @@ CLAIMS = {
         note=NOTE_COMMON + " Lossless npy in between is C07/C15's theorem; binary64 evaluation of projection/normalisation is compared within 2^-30 relative, not proved. clap's option parsing is exercised, not modelled."),
     "C03": dict(
         text="Unbounded Lean theorems over any characteristic-0 field: project_eq_spec (the odometer + weighted accumulation computes y[t] = sum_f x[f] prod_j Hypergeom(t_j; n_j, f_j, m_j) for any number of axes), "
-             "hyper_sum_one (Vandermonde), project_mass, project_nonneg, project_id, hyper_compose / project_project (two steps = direct), project_marginalize_comm (projection commutes with marginalization), and the validation logic; the model is compared with "
-             "Spectrum::project on all admissible targets of exhaustive small shapes and with hypergeometric_pmf at sizes up to 5000 chromosomes (exact rational reference).",
+             "hyper_sum_one (Vandermonde), project_mass, project_nonneg, project_id, hyper_compose / project_project (two steps = direct), project_marginalize_comm (projection commutes with marginalization), hyper_le_one / projectValue_le_one / project_le_mass (every coefficient lies in [0, 1] at every size, every projected entry of a non-negative spectrum is at most the input mass: the exact-arithmetic content of the finiteness clause), and the validation logic; the model is compared with "
+             "Spectrum::project on all admissible targets of exhaustive small shapes, on whole operator rows at 400-4000 chromosomes, and with hypergeometric_pmf at sizes up to 5000 chromosomes (exact rational reference).",
         note=NOTE_COMMON + " Partial clause: finiteness / accuracy of the binary64 evaluation at thousands of chromosomes is explored by coefficient probes (exact reference, 2^-30 relative), not proved."),
     "C01": dict(
         text="Unbounded Lean theorems: the stateful site reader equals a pure per-record specification (C11), and without projection entry k of the created spectrum is exactly the number of records that are complete "
@@ -56,7 +56,7 @@ CLAIMS = {
         note=NOTE_COMMON + " With projection the implementation's binary64 sums depend on order in the last bits; compared within 2^-30 relative."),
     "C12": dict(
         text="PARTIAL (proof of the logic + exploration of the runtime). Proved in Lean: detection logic (gzip magic, BCF magic inside/outside gzip), the detection prefix is independent of the read schedule and leaves the reader right behind it, `sfs create` over any chunk schedule equals `sfs create` on the whole byte string (create_schedule_free) and factors through the decoded call set for all four containers "
-             "(codecs as parameters with explicit hypotheses), the shape ignores map iteration order. Explored, not proved: noodles' multithreaded BGZF reader, OS transport, hash seeds — each call set is executed 64-200 times "
+             "(codecs as parameters with explicit hypotheses), the shape ignores map iteration order; and with the codecs made concrete (Props/C12B.lean over executable models of DEFLATE, gzip / BGZF framing with CRC-32, VCF text and BCF 2.2): inflate inverts stored blocks, BGZF decoding is independent of the block partition (stored encoder) and is the concatenation of whatever the blocks inflate to (any compressor), the gzip peek of Format::detect sees the first payload bytes, VCF and BCF encodings of a well-formed call set decode to it, and containers_agree_bytes: the whole pipeline from input bytes to stdout / exit status computes createCli of the call set for all four containers and every block size, over every chunk schedule of the stream. The byte-level models are tied to noodles / flate2 by the ct.create correspondence in both directions (the model decodes the bytes given to the binary; the binary reads bytes the model encoded). Explored, not proved: noodles' multithreaded BGZF reader, OS transport, hash seeds — each call set is executed 64-200 times "
              "over containers x transports x thread counts x BGZF layouts x repeats and all stdout bytes / exit classes must coincide and equal the model's output.",
         note=NOTE_COMMON + " Thread interleavings and block scheduling live in noodles-bgzf and the OS: no Lean model of this size can exhibit them; repetition explores them."),
 }
